@@ -14,7 +14,10 @@ let () =
       let pos = ref 1 in
       let next () = let t = toks.(!pos) in incr pos; t in
       let nexti () = int_of_string (next ()) in
-      let step o = let e0 = int_of_nat (!st).errs in st := pstep float_ops !st o; if int_of_nat (!st).errs > e0 then Buffer.add_string buf "E " in
+      let nobj = ref ng in
+      let kind = function ENotInit -> "E:n " | ERange -> "E:r " | EWrongGradient -> "E:w " in
+      let step o = let e0 = List.length (!st).errs in st := pstep float_ops !st o;
+        if List.length (!st).errs > e0 then Buffer.add_string buf (kind (List.hd (!st).errs)) in
       while !pos < n do
         (match next () with
          | "S" -> let lhs = nexti () in let k = nexti () in
@@ -24,17 +27,21 @@ let () =
              let op = [(float_of_int q /. 4.0, nat_of_int idx)] in
              if j = 0 then step (OAddDep (nat_of_int lhs, op)) else step (OAppendDep (nat_of_int lhs, op))
            done
-         | "N" -> step (ONewRecording (nat_of_int ng))
+         | "N" -> step (ONewRecording (nat_of_int !nobj))
+         | "A" -> incr nobj; step (ORegister (nat_of_int !nobj)); step (ORecord { lhs = nat_of_int (!nobj - 1); rhs = [] })
+         | "W" -> let lhs = nexti () in let q = nexti () in let idx = nexti () in step (OAppendDep (nat_of_int lhs, [(float_of_int q /. 4.0, nat_of_int idx)]))
          | "G" -> let i = nexti () in let q = nexti () in step (OSeed (nat_of_int i, float_of_int q /. 4.0))
          | "F" -> step OForward | "R" -> step OReverse | "C" -> step OClearGradients
          | "I" -> step (OIndependent (nat_of_int (nexti ()))) | "D" -> step (ODependent (nat_of_int (nexti ())))
          | "CI" -> step OClearIndependents | "CD" -> step OClearDependents
          | "P" -> step OPause | "U" -> step OContinue
          | "O" -> let i = nexti () in
-           (match obs_gradient !st (nat_of_int i) with Some v -> Buffer.add_string buf (fstr v ^ " ") | None -> Buffer.add_string buf "E ")
+           (match obs_gradient_error !st (nat_of_int i) with
+            | Some k -> Buffer.add_string buf (kind k)
+            | None -> (match obs_gradient !st (nat_of_int i) with Some v -> Buffer.add_string buf (fstr v ^ " ") | None -> Buffer.add_string buf "E:? "))
          | "K" -> let (a, b) = obs_counts !st in Buffer.add_string buf (Printf.sprintf "k%d/%d " (int_of_nat a) (int_of_nat b))
          | "J" ->
-           if (!st).indep = [] || (!st).dep = [] then Buffer.add_string buf "E "
+           if (!st).indep = [] || (!st).dep = [] then Buffer.add_string buf "E:d "
            else begin
              let j = obs_jacobian float_ops !st in
              Buffer.add_string buf ("[" ^ String.concat "; " (List.map (fun row -> String.concat " " (List.map fstr row)) j) ^ "] ")
